@@ -12903,3 +12903,12 @@ a=mid:0
         assert!(!extmap_value(crate::sdp::ABS_SEND_TIME_URI).starts_with("3 "));
     }
 }
+
+#[cfg(rustrtc_verif)]
+impl PeerConnection {
+    /// Verification hook H5 (additive, only with `--cfg rustrtc_verif`): the DTLS transport of this
+    /// connection, so that a monitor can read the negotiated SRTP profile and the RFC 5764 exporter.
+    pub fn verif_dtls(&self) -> Option<Arc<crate::transports::dtls::DtlsTransport>> {
+        self.inner.dtls_transport.lock().clone()
+    }
+}
